@@ -167,11 +167,12 @@ PROPS["C02"] = dict(
     subs=[
         dict(name="corpus", test="TestCorpus", quick=1, thorough=1, shards=16),
         dict(name="pipeline", test="TestPipeline", quick=3000, thorough=150000, shards=16, shrinktime="60s"),
+        dict(name="history", test="TestHistory", quick=600, thorough=30000, shards=8, shrinktime="60s"),
     ],
     technique="rapid generation (corpus mutation, mutated generated programs, wild semantic fragments: cycles, structural cycles, conflicts, comprehensions, builtins) with a crash/hang/repeatability invariant; journalled cases attribute Go fatal errors",
     level_text="exploration: every embedded corpus source unmodified, plus generated inputs, through parse -> build -> Validate -> Validate(Concrete) -> Syntax(Final/default/All+Docs)+format -> MarshalJSON -> yaml.Encode, twice in one process (fresh contexts) and for a subsample in another process; a panic, a Go fatal error (stack overflow, deadlock) or differing transcripts is a violation; exceeding the time bound is recorded as inconclusive.",
     level_note="trusted: the journal written before each case attributes a process death to its input; 20 s per input is taken as 'not bounded' only in the sense of inconclusive (listed in evidence, never a violation)",
-    rule="input = corpus file with 0-3 byte/token mutations | witness-first generated program (tier T2) with 0-2 mutations | 1-4 wild fragments (reference cycles, structural cycles, conflicts, defaults, comprehensions, builtins, closedness) with 0-1 mutations. Non-trivial = the input parses and reaches the evaluator; distinct = input text.",
+    rule="input = corpus file with 0-3 byte/token mutations | witness-first generated program (tier T2) with 0-2 mutations | 1-4 wild fragments (reference cycles, structural cycles, conflicts, defaults, comprehensions, builtins, closedness) with 0-1 mutations | operator/builtin templates with hostile constants (2^31, 2^63, 2^64, 50-digit integers, 1e400, ...) | malformed string literals built from openers and hostile pieces (invalid UTF-8, CR, escapes, quotes at line starts). history: 1-4 generated inputs evaluated in sequence, then five fixed sentinel programs must still give their original transcript (no state leaks between evaluations in one process). Non-trivial = the input parses and reaches the evaluator; distinct = input text.",
     assumptions=["inputs containing a required field marker (!:) are excluded: known crasher F1"],
 )
 
